@@ -419,7 +419,7 @@ class _OsProxy(object):
         return getattr(self._real, k)
 
 
-def _tempdir(user_dir, exit_kind, fire_shutdown, mkdir_ok=False, timeout_first=False):
+def _tempdir(user_dir, exit_kind, fire_shutdown, mkdir_ok=False, timeout_first=False, cfg_dir=False):
     import os as _os
     deleted = []
     made = []
@@ -429,16 +429,23 @@ def _tempdir(user_dir, exit_kind, fire_shutdown, mkdir_ok=False, timeout_first=F
     controller.available_tcp_port = lambda reactor: defer.succeed(9999)
     reactor = LaunchReactor()
     ddir = '/nonexistent-parent/userdata' if user_dir else None
+    extra = {}
+    if cfg_dir:
+        # the legacy way (launch_tor): a TorConfig that names the caller's own DataDirectory
+        from txtorcon.torconfig import TorConfig
+        tc = TorConfig()
+        tc.DataDirectory = '/nonexistent-parent/cfgdata'
+        extra['_tor_config'] = tc
     try:
         d = controller.launch(reactor, tor_binary='/usr/bin/tor', data_directory=ddir, connection_creator=lambda: defer.Deferred(),
-                              timeout=30 if timeout_first else None)
+                              timeout=30 if timeout_first else None, **extra)
         o = fakes.Outcome(d)
         if len(reactor.spawned) != 1:
             return R('tor-not-spawned-once', '%r', o.exc())
         pp, args = reactor.spawned[0]
         if user_dir and made:
             return R('temporary-directory-created-although-caller-supplied-one')
-        if not user_dir and len(made) != 1:
+        if not user_dir and not cfg_dir and len(made) != 1:
             return R('no-temporary-directory-created')
         if timeout_first:
             reactor.clock.advance(31)
@@ -448,13 +455,13 @@ def _tempdir(user_dir, exit_kind, fire_shutdown, mkdir_ok=False, timeout_first=F
             pp.processEnded(Failure(error.ProcessDone(0)))
         else:
             pp.processEnded(Failure(error.ProcessTerminated(None, 15, None)))
-        if not user_dir:
+        if not user_dir and made:
             if made[0] not in deleted:
                 return R('temporary-data-directory-not-removed-after-process-ended', 'deleted %r', deleted)
         if fire_shutdown:
             for f in reactor.triggers:
                 f()
-        if user_dir and any('userdata' in str(x) for x in deleted):
+        if any('userdata' in str(x) or 'cfgdata' in str(x) for x in deleted):
             return R('caller-supplied-directory-removed', '%r', deleted)
         if o.fired > 1:
             return R('launch-result-fired-twice')
@@ -467,10 +474,10 @@ def _tempdir(user_dir, exit_kind, fire_shutdown, mkdir_ok=False, timeout_first=F
 
 
 @cond(quick=dict(budget=60))
-def c19_tempdir(user_dir: bool, exit_kind: int, fire_shutdown: bool, mkdir_ok: bool, timeout_first: bool) -> str:
+def c19_tempdir(user_dir: bool, exit_kind: int, fire_shutdown: bool, mkdir_ok: bool, timeout_first: bool, cfg_dir: bool) -> str:
     """real launch() with doubles for the reactor and the file system: temp dir removed at process end, caller's never
     (whether or not the caller's directory existed before: mkdir_ok = launch() could create it)"""
     exit_kind = api.pick(exit_kind, 0, 1)
     with api.no_tracing():
         return _tempdir(True if user_dir else False, exit_kind, True if fire_shutdown else False, True if mkdir_ok else False,
-                        True if timeout_first else False)
+                        True if timeout_first else False, True if (cfg_dir and not user_dir) else False)
